@@ -2,5 +2,4 @@ SPECIFICATION Spec
 INVARIANT FSound
 INVARIANT FComplete
 INVARIANT FBounded
-PROPERTY FMonotone
 CHECK_DEADLOCK FALSE
